@@ -193,6 +193,15 @@ pub fn run() {
                 drop(tx1);
                 json!({"carrier": carrier, "before": s_before, "send": r.unwrap_or_else(|| "hang".into())})
             },
+            // the receiving end sits in a one-shot server that is dropped without ever accepting, after the client has connected
+            "server_dropped" => {
+                let (server, name) = platform::OsIpcOneShotServer::new().unwrap();
+                let tx = platform::OsIpcSender::connect(name).unwrap();
+                drop(server);
+                let data = tagged(3, 0, len);
+                let r = with_watchdog(8_000, move || res_str(tx.send(&data, vec![], vec![]).map_err(std::io::Error::from)));
+                json!({"send": r.unwrap_or_else(|| "hang".into())})
+            },
             _ => json!({"error": "scen"}),
         };
         let fds_after = open_fds().len();
